@@ -87,12 +87,24 @@ type source struct {
 }
 
 func (s *source) Read(p []byte) (int, error) {
-	n, err := io.ReadFull(s.r, p)
-	if n > 0 && (err == io.EOF || err == io.ErrUnexpectedEOF) {
-		err = nil
+	var n int
+
+	for n < len(p) {
+		m, err := s.r.Read(p[n:])
+		n += m
+
+		// Only the end of input makes a short block; it is reported again by the next read.
+		// Any other error, including an io.ErrUnexpectedEOF of the reader itself, is a failure.
+		if err == io.EOF && n > 0 {
+			return n, nil
+		}
+
+		if err != nil {
+			return n, err
+		}
 	}
 
-	return n, err
+	return n, nil
 }
 
 // NextToken scans the input stream until it recognizes a valid token, which it then returns.
